@@ -63,7 +63,7 @@ theorem repLeafY (n : Nat) : LeafY (RepIs n) where
   setClosed := by unfold setClosed; rep_same_tac
   setStopping := by unfold setStopping; rep_same_tac
   setRestarting := by unfold setRestarting; rep_same_tac
-  clearRestarting := by unfold clearRestarting; rep_same_tac
+  clearRestarting := fun b => by unfold clearRestarting; rep_same_tac
   setLoopStop := fun b => by unfold setLoopStop; rep_same_tac
   setSocketEvent := fun b => by unfold setSocketEvent; rep_same_tac
   setSockReady := fun b => by unfold setSockReady; rep_same_tac
